@@ -4,6 +4,8 @@ pub mod c04;
 pub mod simtest;
 pub mod c09;
 pub mod c07;
+pub mod c10;
+pub mod c11;
 
 use crate::report::Tier;
 
@@ -17,6 +19,8 @@ pub fn run(id: &str, tier: &Tier) -> Result<i32, String> {
         "C04" => c04::c04(tier),
         "C09" => c09::c09(tier),
         "C07" => c07::c07(tier),
+        "C10" => c10::c10(tier),
+        "C11" => c11::c11(tier),
         "C05" => e2_checks::c05(tier),
         _ => Err(format!("no check registered for {}", id)),
     }
